@@ -146,7 +146,9 @@ func runGoNode(rc *sk.RunCtx, focus string) {
 			if spec.extra == nil {
 				spec.extra = map[string]any{}
 			}
-			deepMerge(spec.extra, map[string]any{"handshakes": map[string]any{"try_interval": "200ms", "retries": retries}})
+			// short liveness intervals: the connection manager's traffic checks are due within the prelude's clock steps
+			deepMerge(spec.extra, map[string]any{"handshakes": map[string]any{"try_interval": "200ms", "retries": retries},
+				"timers": map[string]any{"connection_alive_interval": 1, "pending_deletion_interval": 1}})
 		}})
 	if rc.Failed() {
 		return
@@ -216,7 +218,7 @@ func runGoNode(rc *sk.RunCtx, focus string) {
 	pendingAtStart := len(mw.nodes[0].f.handshakeManager.vpnIps)+len(mw.nodes[1].f.handshakeManager.vpnIps) > 0
 
 	// phase 1: the roles of each node, interleaved at lock points
-	g.advance(time.Duration(tp.Choose(5)) * 100 * time.Millisecond) // some timers become due
+	g.advance([]time.Duration{0, 100, 200, 400, 1100, 2100}[tp.Choose(6)] * time.Millisecond) // some timers become due
 	s := newGosched(rc)
 	roles := 0
 	for i, n := range mw.nodes {
@@ -281,7 +283,7 @@ func runGoNode(rc *sk.RunCtx, focus string) {
 				}
 			})
 		}
-		if tp.Chance(1, 3) {
+		if tp.Chance(1, 2) {
 			roles++
 			s.spawn(fmt.Sprintf("n%d.cm", i), func() { n.cmTick() })
 		}
